@@ -106,16 +106,19 @@ static const char *get_type(int type)
   return "???";
 }
 
-static int print_table(Memory *memory, uint32_t address, FILE *out)
+// Prints the entries of a br_table whose count is at address and returns
+// the number of bytes the entries take (the count itself belongs to the
+// instruction disasm_webasm() returned the length of).  Entries that would
+// start after end are not part of the range.
+static int print_table(Memory *memory, uint32_t address, uint32_t end, FILE *out)
 {
-  int byte_count = 0, total_length, entry, n, count = 0;
+  int byte_count = 0, total_length = 0, entry, n, count = 0;
 
-  count = get_varint(memory, address, &total_length);
+  count = get_varint(memory, address, &byte_count);
 
-  address += total_length;
-  byte_count += count;
+  address += byte_count;
 
-  for (n = 0; n < count; n++)
+  for (n = 0; n < count && address <= end; n++)
   {
     entry = get_varint(memory, address, &byte_count);
 
@@ -250,7 +253,7 @@ void list_output_webasm(
 
   if (opcode == 0x0e)
   {
-    start += print_table(&asm_context->memory, start + 1, asm_context->list);
+    print_table(&asm_context->memory, start + 1, end - 1, asm_context->list);
   }
 }
 
@@ -299,7 +302,7 @@ void disasm_range_webasm(
 
     if (opcode == 0x0e)
     {
-      start += print_table(memory, start + 1, stdout);
+      start += print_table(memory, start + 1, end, stdout);
     }
 
     start += count;
